@@ -8,9 +8,15 @@ var $getStackDepth = () => {
 };
 
 var $panicStackDepth = null, $panicValue;
+// Set while the JavaScript stack is being unwound (by throwing null) to the frame whose
+// deferred function recovered a panic.
+var $recoveredUnwind = false;
 var $callDeferred = (deferred, jsErr, fromPanic) => {
     if (!fromPanic && deferred !== null && $curGoroutine.deferStack.indexOf(deferred) == -1) {
         throw jsErr;
+    }
+    if (!fromPanic) {
+        $recoveredUnwind = false; /* reached the frame that recovered */
     }
     if (jsErr !== null) {
         var newErr = null;
@@ -31,6 +37,7 @@ var $callDeferred = (deferred, jsErr, fromPanic) => {
     var outerPanicValue = $panicValue;
 
     var localPanicValue = $curGoroutine.panicStack.pop();
+    var localPanicAborted = false;
     if (localPanicValue !== undefined) {
         $panicStackDepth = $getStackDepth();
         $panicValue = localPanicValue;
@@ -85,6 +92,7 @@ var $callDeferred = (deferred, jsErr, fromPanic) => {
             if (localPanicValue !== undefined && $panicStackDepth === null) {
                 /* error was recovered */
                 if (fromPanic) {
+                    $recoveredUnwind = true;
                     throw null;
                 }
                 return;
@@ -94,6 +102,11 @@ var $callDeferred = (deferred, jsErr, fromPanic) => {
         // Deferred function threw a JavaScript exception or tries to unwind stack
         // to the point where a panic was handled.
         if (fromPanic) {
+            if (e === null && $recoveredUnwind) {
+                // A newer panic, raised by one of the deferred calls above, was recovered
+                // further up the stack: this older panic is aborted with it.
+                localPanicAborted = true;
+            }
             // Re-throw the exception to reach deferral execution call at the end
             // of the function.
             throw e;
@@ -104,7 +117,7 @@ var $callDeferred = (deferred, jsErr, fromPanic) => {
         $callDeferred(deferred, e, fromPanic);
     } finally {
         if (localPanicValue !== undefined) {
-            if ($panicStackDepth !== null) {
+            if ($panicStackDepth !== null && !localPanicAborted) {
                 $curGoroutine.panicStack.push(localPanicValue);
             }
             $panicStackDepth = outerPanicStackDepth;
